@@ -1165,6 +1165,16 @@ func init() {
 				m.violate(violation{"C04", "make-names", what, map[string]string{"words": joinU64(ws)}})
 			}
 		}
+		// reflection-made generators (Make) of maps, slices and structs with such fields: the values drawn from a recording are
+		// the values drawn from the same recording without the bits of rejected attempts (duplicate keys)
+		for i := 0; i < 60*scale; i++ {
+			seed := r.u64()
+			m.tag("make-replay-pruned")
+			m.eval(fmt.Sprint("make-replay", seed), true)
+			if what := c04MakeReplay(seed); what != "" {
+				m.violate(violation{"C04", "make-replay", what, map[string]string{"seed": fmt.Sprint(seed)}})
+			}
+		}
 		// what a generator draws does not depend on which other generators were built before it in the process:
 		// a catalogue of generators is built and drawn from in several orders, each in a process of its own
 		{
@@ -1456,6 +1466,56 @@ func c04MakeScope2b(ws []uint64) (string, string) {
 		Y uint8
 	}
 	return c04Draw(rapid.Make[ID2](), ws), c04Draw(rapid.Make[Rec2](), ws)
+}
+
+type c04MakeRec struct {
+	M map[uint8]bool
+	S []map[bool]int8
+	P *map[int8]uint8
+}
+
+var c04MakeGens = []*rapid.Generator[any]{
+	rapid.Make[map[int8]int]().AsAny(),
+	rapid.Make[map[bool]int64]().AsAny(),
+	rapid.Make[map[uint8]string]().AsAny(),
+	rapid.Make[c04MakeRec]().AsAny(),
+	rapid.Make[[]map[bool]bool]().AsAny(),
+}
+
+// record a draw from the PRNG, prune the recording, replay it: the same values
+func c04MakeReplay(seed uint64) string {
+	for k, g := range c04MakeGens {
+		render := func(s *rapid.VerifStream) (out string) {
+			defer func() {
+				if p := recover(); p != nil {
+					out = fmt.Sprintf("panic: %v", p)
+				}
+			}()
+			return fmt.Sprintf("%v", derefAll(rapid.VerifValue(g, rapid.VerifNewT(newRecTB("mk"), s, false))))
+		}
+		s1 := rapid.VerifRandStream(seed, true)
+		v1 := render(s1)
+		if strings.HasPrefix(v1, "panic:") {
+			continue
+		}
+		pr := rapid.VerifPrune(s1.Rec())
+		v2 := render(rapid.VerifBufStream(pr.Data, false))
+		if v1 != v2 {
+			return fmt.Sprintf("Make generator #%d, seed %d: the run drew %s, the replay of its pruned recording (%d of %d words) draws %s", k, seed, v1, len(pr.Data), len(s1.Rec().Data), v2)
+		}
+	}
+	return ""
+}
+
+// pointers inside a value replaced by what they point to (for printing)
+func derefAll(v any) any {
+	if r, ok := v.(c04MakeRec); ok {
+		if r.P != nil {
+			return fmt.Sprintf("{%v %v &%v}", r.M, r.S, *r.P)
+		}
+		return fmt.Sprintf("{%v %v nil}", r.M, r.S)
+	}
+	return v
 }
 
 func c04MakeNames(ws []uint64) string {
@@ -2248,6 +2308,11 @@ func init() {
 		what := c05ElementFilter(parseWordsGo(v.Params["words"]))
 		return what != "", what
 	}
+	replayers["make-replay"] = func(v violation, tmp string) (bool, string) {
+		seed, _ := strconv.ParseUint(v.Params["seed"], 10, 64)
+		what := c04MakeReplay(seed)
+		return what != "", what
+	}
 	replayers["gotest-fuzz"] = func(v violation, tmp string) (bool, string) {
 		what, ran := c13GoTest(tmp)
 		return ran && what != "", what
@@ -2345,6 +2410,11 @@ func init() {
 							p := flagsStr(fl2)
 							p["prog"] = src
 							m.violate(violation{"C07", "seed", fmt.Sprintf("the report of a failure replayed from the fail file offers -rapid.seed=%d; a run with that seed gives %s (the failure: %s)", seed2, run3.verdict, run1.verdict), p})
+						} else if len(run3.in.invs) > 0 && len(run2.in.invs) > 0 && strings.Join(run3.in.invs[0].draws, ";") != strings.Join(run2.in.invs[0].draws, ";") {
+							// the printed seed makes the first test case draw the values of the test case the report is about
+							p := flagsStr(fl2)
+							p["prog"] = src
+							m.violate(violation{"C07", "seed", fmt.Sprintf("the report of a failure replayed from the fail file (draws %v) offers -rapid.seed=%d; with that seed the first test case draws %v", run2.in.invs[0].draws, seed2, run3.in.invs[0].draws), p})
 						}
 						os.RemoveAll(clean)
 					}
@@ -2723,6 +2793,10 @@ func init() {
 								m.tag("failfile-report-with-seed")
 								if kind5 != "failed" || valid5 != "0" || msg5 != msg1 {
 									what = fmt.Sprintf("the report of a failure replayed from the fail file offers -rapid.seed=%d; with that seed: %s", seed2, run5.verdict)
+								} else if len(run5.in.invs) > 0 && strings.Join(run5.in.invs[0].draws, ";") != strings.Join(run2.in.invs[0].draws, ";") {
+									// (the seed printed with a failure makes the first test case draw the values of the test case the report
+									// is about: here the persisted one)
+									what = fmt.Sprintf("the report of a failure replayed from the fail file (draws %v) offers -rapid.seed=%d; with that seed the first test case draws %v", run2.in.invs[0].draws, seed2, run5.in.invs[0].draws)
 								}
 								os.RemoveAll(clean5)
 							}
